@@ -157,6 +157,90 @@ def scenario(r, out, oc, reqs, pend, burst=False):
         oc.samples.append(info)
 
 
+def two_instances_case(out, oc, n_events=24):
+    """two machines of the same generated class alive in one process (real threads): the events triggered on one are
+    processed by that one - all of them, in order, on its own worker - the other gets none, and both stop()"""
+    import sys
+    import threading
+    saved = {k: sys.modules.get(k) for k in ("ThrController", "ThrStateMachine")}
+    sys.path.insert(0, out)
+    try:
+        for k in saved:
+            sys.modules.pop(k, None)
+        ctrl_mod = __import__("ThrController")
+        sm_mod = __import__("ThrStateMachine")
+    finally:
+        sys.path.remove(out)
+    try:
+        logs = {"A": [], "B": []}
+        gate = threading.Event()
+
+        def make(tag):
+            class Ctrl(ctrl_mod.ThrController):
+                def ActA(self, event):
+                    # the first callback of the machine the events go to is busy for a while: its own worker cannot take the
+                    # rest meanwhile - nobody else may
+                    if tag == "A" and not logs["A"]:
+                        logs[tag].append(("ActA", threading.current_thread().name))
+                        gate.wait(5)
+                        return
+                    logs[tag].append(("ActA", threading.current_thread().name))
+
+                def ActB(self, event):
+                    logs[tag].append(("ActB", threading.current_thread().name))
+
+                def OnS1Entry(self, e):
+                    pass
+
+                def OnS1Exit(self, e):
+                    pass
+
+                def OnS2Entry(self, e):
+                    pass
+
+                def OnS2Exit(self, e):
+                    pass
+
+                def NoTransition(self, e):
+                    pass
+            with common.quiet():
+                return sm_mod.ThrStateMachine(Ctrl())
+        a, b = make("A"), make("B")
+        for _ in range(n_events):
+            a.TriggerEvA()
+        import time as _t
+        _t.sleep(0.3)
+        stolen = len(logs["B"])
+        gate.set()
+        done = {}
+
+        def stop(tag, sm):
+            sm.stop()
+            done[tag] = True
+        ts = [threading.Thread(target=stop, args=(t, m), daemon=True) for t, m in (("A", a), ("B", b))]
+        for t in ts:
+            t.start()
+        for t in ts:
+            t.join(8)
+        oc.case(("two-instances", n_events), nontrivial=True)
+        oc.stat("two_instance_runs")
+        problems = []
+        if not (done.get("A") and done.get("B")):
+            problems.append("stop() did not return for %s" % [t for t in ("A", "B") if not done.get(t)])
+        if len(logs["A"]) != n_events:
+            problems.append("the machine the %d events were triggered on processed %d of them" % (n_events, len(logs["A"])))
+        if logs["B"] or stolen:
+            problems.append("the other machine's controller was called %d times" % max(len(logs["B"]), stolen))
+        if problems:
+            oc.violations.append(dict(what="two machines of the same generated class in one process: " + "; ".join(problems), scenario=dict(events_on_A=n_events, events_on_B=0)))
+    finally:
+        for k, v in saved.items():
+            if v is None:
+                sys.modules.pop(k, None)
+            else:
+                sys.modules[k] = v
+
+
 def run(tier):
     t0 = time.time()
     thorough = tier == "thorough"
@@ -177,6 +261,9 @@ def run(tier):
             scenario(r, out, oc, reqs, pend, burst=i % 250 == 7)
             if oc.violations:
                 break
+        if not oc.violations:
+            for k in range(3 if thorough else 1):
+                two_instances_case(out, oc, n_events=[24, 1, 200][k])
     for info, ans in zip(pend, lean_batch(reqs)):
         oc.traces_validated += 1
         if "error" in ans:
